@@ -1,6 +1,6 @@
 PROP = dict(
     gen=["tpdulayouts", "smsoctets"],
-    proof_files=["Properties/C19.v", "Proofs/TpduRoundtrip.v", "Proofs/TpduAlnum.v", "Proofs/SmsOctetTables.v", "Proofs/TpduFlags.v", "Proofs/TpduReader.v", "Proofs/TpduReaderCompose.v", "Proofs/TpduReaderSpec.v"],
+    proof_files=["Properties/C19.v", "Proofs/TpduRoundtrip.v", "Proofs/TpduAlnum.v", "Proofs/SmsOctetTables.v", "Proofs/TpduFlags.v", "Proofs/TpduUserData.v", "Proofs/TpduMarshalEffect.v", "Proofs/TpduReader.v", "Proofs/TpduReaderCompose.v", "Proofs/TpduReaderSpec.v"],
     model_files=["Model/SemiOctet.v", "Model/Tpdu.v", "Model/TpduRun.v", "Model/TpduReader.v", "Model/TpduReaderRun.v", "Spec/Gsm0340.v"],
     extra_files=["Proofs/TpduExt.v", "Properties/Ext_Sms.v"],   # the other TPDU types: outside C19, a failure is a note in the evidence, not a violation
     trusted=["Spec/Gsm0340.v: hand transcription of GSM 03.40 9.2.2.1/9.2.2.2/9.1.2.5/9.2.3.x and GSM 03.38 4, 6.1.2.1.1 (each definition cites its clause)",
